@@ -144,10 +144,14 @@ def check_apps(ctx, op, M, apps, name, dts=()):
     """Apply `op` (after a view) to every argument spec in `apps`, compare with the dense matrix M."""
     ctx.require(name + ":shape", tuple(int(s) for s in op.shape) == M.shape,
                 "operator shape %r, dense definition %r" % (tuple(op.shape), M.shape))
+    views = {}          # one operator object per view: the same object is applied repeatedly
+    kept = []           # results returned earlier must not change when the operator is used again
     for a in apps:
         view = a.get("view", "")
         Mv = view_dense(M, view)
-        opv = apply_view(op, view, ctx, name)
+        if view not in views:
+            views[view] = apply_view(op, view, ctx, name)
+        opv = views[view]
         ctx.require(name + ":shape", tuple(int(s) for s in opv.shape) == Mv.shape,
                     "view %r has shape %r, expected %r" % (view, tuple(opv.shape), Mv.shape))
         x, xv = build_arg(a, Mv.shape[1])
@@ -161,6 +165,30 @@ def check_apps(ctx, op, M, apps, name, dts=()):
         ctx.require(name + ":arg_unchanged", np.array_equal(x, keep), "the argument was modified in place")
         ctx.flag("arg:" + a["form"], "view:" + (view or "none"), "how:" + how,
                  "argdt:" + a.get("dt", "f8"), "order:" + a.get("order", "C"))
+        if isinstance(y, np.ndarray):
+            kept.append(("%s%s.%s" % (name, "." + view if view else "", how), y, y.copy()))
+    # history on one operator object: a second, different 1-D vector (and, for square operators, the operator's own output as
+    # its next argument - a power iteration); then every result returned earlier must still be what it was
+    for view, opv in sorted(views.items()):
+        Mv = view_dense(M, view)
+        n = Mv.shape[1]
+        x1 = (np.arange(n) % 5 - 2.0) / 2.0
+        x2 = ((np.arange(n) * 3) % 7 - 3.0) / 4.0
+        nm = "%s%s" % (name, "." + view if view else "")
+        y1 = ctx.sut(do_apply, opv, x1, "dot", what=nm + ".dot(first vector)")
+        y2 = ctx.sut(do_apply, opv, x2, "dot", what=nm + ".dot(second vector)")
+        sc = float(np.max(np.abs(Mv).dot(np.abs(x1) + np.abs(x2)))) if Mv.size else 0.0
+        ctx.close(name + ":earlier_result_kept", y1, Mv.dot(x1), rtol=rtol_for(*dts), scale=sc, what="view=%r, after a second dot" % view)
+        ctx.close(name + ":value", y2, Mv.dot(x2), rtol=rtol_for(*dts), scale=sc, what="view=%r second vector" % view)
+        if Mv.shape[0] == Mv.shape[1] and n > 0:
+            z = ctx.sut(do_apply, opv, y2, "dot", what=nm + ".dot(own output)")
+            ref = Mv.dot(Mv.dot(x2))
+            sc2 = float(np.max(np.abs(Mv).dot(np.abs(Mv).dot(np.abs(x2))))) if Mv.size else 0.0
+            ctx.close(name + ":applied_to_own_output", z, ref, rtol=10 * rtol_for(*dts), scale=sc2, what="view=%r" % view)
+            ctx.flag("applied_to_own_output")
+    for what, live, snap in kept:
+        if not np.array_equal(live, snap, equal_nan=True):
+            raise Violation(name + ":earlier_result_kept", "the array returned by %s changed when the operator was applied again" % what)
 
 
 def any_mat_arg(apps):
